@@ -204,53 +204,72 @@ Decides(c) == pc[c] = "decided" /\ pc'[c] # "decided"
 Posts(c) == pc[c] = "posting" /\ pc'[c] = "decided"
 
 \* returns the first 200 whose body parses: success is only ever decided on such a response, and
-\* such a response is never followed by anything but the return (with Terminal200 below this makes
+\* such a response is never followed by anything but the return (with OthersImmediate below this makes
 \* the returned response the first ok of the caller's script)
-FirstGood200 == [][\A c \in Callers :
-                     /\ (result'[c].k = "ok" /\ result[c].k # "ok") => (pc[c] = "decided" /\ lastResp[c].cls = "ok")
-                     /\ (Decides(c) /\ lastResp[c].cls = "ok") => (pc'[c] = "done" /\ result'[c].k = "ok")]_vars
+FirstGood200Step == \A c \in Callers :
+                      /\ (result'[c].k = "ok" /\ result[c].k # "ok") => (pc[c] = "decided" /\ lastResp[c].cls = "ok")
+                      /\ (Decides(c) /\ lastResp[c].cls = "ok") => (pc'[c] = "done" /\ result'[c].k = "ok")
+FirstGood200 == [][FirstGood200Step]_vars
 
 \* retries only after transport errors, unparsable 200 bodies, 408, 429, 503 (and a redirected POST)
-RetryOnlyOn == [][\A c \in Callers :
-                    (Decides(c) /\ pc'[c] = "setdone") => lastResp[c].cls \in Retryable]_vars
+RetryOnlyOnStep == \A c \in Callers :
+                     (Decides(c) /\ pc'[c] = "setdone") => lastResp[c].cls \in Retryable
+RetryOnlyOn == [][RetryOnlyOnStep]_vars
 
 \* every other status is returned immediately as an error (carrying status and body: harness)
-OthersImmediate == [][\A c \in Callers :
-                        (Decides(c) /\ lastResp[c].cls = "other") =>
-                            (pc'[c] = "done" /\ result'[c].k = "status" /\ now' = now)]_vars
+OthersImmediateStep == \A c \in Callers :
+                         (Decides(c) /\ lastResp[c].cls = "other") =>
+                             (pc'[c] = "done" /\ result'[c].k = "status" /\ now' = now)
+OthersImmediate == [][OthersImmediateStep]_vars
 
 \* never waits less than a server-supplied Retry-After
-HonoursRetryAfter == [][\A c \in Callers : Posts(c) => now >= minNext[c]]_vars
+HonoursRetryAfterStep == \A c \in Callers : Posts(c) => now >= minNext[c]
+HonoursRetryAfter == [][HonoursRetryAfterStep]_vars
 
 \* when the server has not asked for more: never longer than the cap plus the jitter
-CapPlusJitter == [][\A c \in Callers :
-                      (Posts(c) /\ lastPost[c] >= 0) =>
-                          now <= Max(lastPost[c] + Cap, askUntil) + (J - 1)]_vars
+CapPlusJitterStep == \A c \in Callers :
+                       (Posts(c) /\ lastPost[c] >= 0) =>
+                           now <= Max(lastPost[c] + Cap, askUntil) + (J - 1)
+CapPlusJitter == [][CapPlusJitterStep]_vars
 
 \* 408 is retried without added delay: it leaves the shared back-off untouched ...
-NoDelayOn408 == [][\A c \in Callers :
-                     (Decides(c) /\ lastResp[c].cls = "s408") =>
-                         (pc'[c] = "setdone" /\ mult' = mult /\ notBefore' = notBefore)]_vars
+NoDelayOn408Step == \A c \in Callers :
+                      (Decides(c) /\ lastResp[c].cls = "s408") =>
+                          (pc'[c] = "setdone" /\ mult' = mult /\ notBefore' = notBefore)
+NoDelayOn408 == [][NoDelayOn408Step]_vars
 \* ... and every wait ends as soon as the not-before instant read at its start plus jitter has passed
-WaitIsBackoffPlusJitter == [][\A c \in Callers :
-                                (pc[c] = "waiting" /\ pc'[c] = "posting") =>
-                                    /\ now = Max(until[c], lastPost[c])]_vars
-UntilInWindow == [][\A c \in Callers :
-                      (pc[c] = "setdone" /\ pc'[c] = "waiting") =>
-                          (until'[c] >= notBefore /\ until'[c] <= notBefore + (J - 1))]_vars
+WaitIsBackoffPlusJitterStep == \A c \in Callers :
+                                 (pc[c] = "waiting" /\ pc'[c] = "posting") =>
+                                     /\ now = Max(until[c], lastPost[c])
+WaitIsBackoffPlusJitter == [][WaitIsBackoffPlusJitterStep]_vars
+UntilInWindowStep == \A c \in Callers :
+                       (pc[c] = "setdone" /\ pc'[c] = "waiting") =>
+                           (until'[c] >= notBefore /\ until'[c] <= notBefore + (J - 1))
+UntilInWindow == [][UntilInWindowStep]_vars
 
 \* a pending back-off is only ever extended
-PendingOnlyExtended == [][(notBefore > now /\ now' = now) => notBefore' >= notBefore]_vars
-MultMonotone == [][mult' >= mult /\ mult' <= mult + 1]_vars
+PendingOnlyExtendedStep == (notBefore > now /\ now' = now) => notBefore' >= notBefore
+PendingOnlyExtended == [][PendingOnlyExtendedStep]_vars
+MultMonotoneStep == mult' >= mult /\ mult' <= mult + 1
+MultMonotone == [][MultMonotoneStep]_vars
 
 \* once the context has ended: no further request, and no time passes before the caller has returned
-NoPostAfterCtx == [][\A c \in Callers : ctxDone[c] => ~Posts(c)]_vars
-PromptCtxSafe  == [][now' # now => \A c \in Callers : (ctxDone[c] /\ pc[c] # "idle") => pc[c] = "done"]_vars
+NoPostAfterCtxStep == \A c \in Callers : ctxDone[c] => ~Posts(c)
+NoPostAfterCtx == [][NoPostAfterCtxStep]_vars
+PromptCtxSafeStep == now' # now => \A c \in Callers : (ctxDone[c] /\ pc[c] # "idle") => pc[c] = "done"
+PromptCtxSafe == [][PromptCtxSafeStep]_vars
 CtxResult == \A c \in Callers : result[c].k = "ctx" => ctxDone[c]
 \* ... and it does return (liveness, weak fairness of every caller's steps)
 PromptCtx == \A c \in Callers : (ctxDone[c] /\ pc[c] # "idle") ~> (pc[c] = "done")
 
 \* a redirected POST is never treated as success (it is retried like a transport error)
-RedirectNotOK == [][\A c \in Callers :
-                      (Decides(c) /\ lastResp[c].cls = "redir") => (pc'[c] = "setdone" /\ result'[c] = NoRes)]_vars
+RedirectNotOKStep == \A c \in Callers :
+                       (Decides(c) /\ lastResp[c].cls = "redir") => (pc'[c] = "setdone" /\ result'[c] = NoRes)
+RedirectNotOK == [][RedirectNotOKStep]_vars
+
+\* every step clause at once (used by the trace specification on the steps of recorded executions)
+AllStepClauses == /\ FirstGood200Step /\ RetryOnlyOnStep /\ OthersImmediateStep /\ HonoursRetryAfterStep
+                  /\ CapPlusJitterStep /\ NoDelayOn408Step /\ WaitIsBackoffPlusJitterStep /\ UntilInWindowStep
+                  /\ PendingOnlyExtendedStep /\ MultMonotoneStep /\ NoPostAfterCtxStep /\ PromptCtxSafeStep
+                  /\ RedirectNotOKStep
 =============================================================================
